@@ -381,7 +381,7 @@ Qed.
 
 (* the sources contain no wall-clock reads, no math/rand, no goroutines or selects at all *)
 Definition banned_kind (k : site_kind) : bool :=
-  match k with K_timenow | K_rand | K_goroutine | K_select | K_mapkeys => true | _ => false end.
+  match k with K_timenow | K_rand | K_goroutine | K_select | K_mapkeys | K_stack | K_ptrfmt => true | _ => false end.
 
 Lemma no_banned_sites : forallb (fun s => negb (banned_kind (s_kind s))) gen_sites = true.
 Proof. vm_compute. reflexivity. Qed.
